@@ -74,9 +74,9 @@ func arBases() []base {
 }
 
 // debWideSet restricts the wide product on the (4 KiB, deb.Load-executed) .deb bases: every single corruption, and
-// the pairs name x name and name x size (left-aligned size classes) over all member pairs; the small bases ar2/ar3
-// take the full product.
-func debWideSet(coreSize []map[string]bool, cs []corr) bool {
+// the pairs name x name and name x size (left-aligned size classes) over all member pairs (deb-pre, which exists for
+// the empty earlier member: name x name only); the small bases ar2/ar3 take the full product.
+func debWideSet(coreSize []map[string]bool, nameOnlyPairs bool, cs []corr) bool {
 	if len(cs) == 1 {
 		return true
 	}
@@ -85,6 +85,9 @@ func debWideSet(coreSize []map[string]bool, cs []corr) bool {
 	}
 	core := func(c corr) bool {
 		return c.Col == "name" || (c.Col == "size" && coreSize[c.M][c.Val])
+	}
+	if nameOnlyPairs {
+		return cs[0].Col == "name" && cs[1].Col == "name"
 	}
 	return (cs[0].Col == "name" || cs[1].Col == "name") && core(cs[0]) && core(cs[1])
 }
@@ -371,13 +374,13 @@ type runner struct {
 
 const maxHangs = 8
 
-// limiter keeps the violation records deterministic: at most one record per clause+features per SHARD (the engine's
+// limiter keeps the violation records deterministic: at most one record per entry point+clause+features per SHARD (the engine's
 // own cap in Stats.Violate is per worker, and which worker takes which shard varies from run to run). Every
 // violating execution is still counted in the outcome histogram ("violation: <clause>").
 type limiter map[string]bool
 
-func (l limiter) record(st *mc.Stats, v *mc.Violation) {
-	k := v.Clause + "|" + strings.Join(v.Features, ",")
+func (l limiter) record(st *mc.Stats, via string, v *mc.Violation) {
+	k := via + "|" + v.Clause + "|" + strings.Join(v.Features, ",")
 	if !l[k] {
 		l[k] = true
 		st.Viol = append(st.Viol, v)
@@ -431,7 +434,7 @@ func (x *runner) one(scen string, st *mc.Stats, lim limiter, b []byte, via, desc
 				} else if clauses0[v.Clause] {
 					continue
 				}
-				lim.record(st, v)
+				lim.record(st, via, v)
 			}
 		}
 		if conv == 1 && st.WantSample() && len(b) < 200 && len(b)%7 == 3 {
@@ -610,7 +613,7 @@ func Run(r *mc.Run) {
 	// all sets of <= 2 columns (so e.g. an earlier member named "//" x a later member named "/35", both orders,
 	// with empty and non-empty data), at the ar level and through deb.Load ----
 	kw := 2
-	for _, b := range []base{arB[0], arB[1], debB[0], debB[1], debPre()} {
+	for _, b := range []base{arB[0], arB[1], debB[0], debPre()} {
 		b := b
 		all := singlesOf(b.ms, true)
 		cs0 := coreSizes(b)
@@ -623,13 +626,13 @@ func Run(r *mc.Run) {
 			via = "ar + deb.Load"
 		}
 		r.Scenario("wide-columns-"+b.name, map[string]interface{}{"base": b.name, "members": len(b.ms), "columns": wideCols, "single_corruptions": len(all),
-			"max_columns_corrupted": kb, "via": via, "readerat_conventions": 2, "deb_bases_pairs": "name x name and name x left-aligned size only",
+			"max_columns_corrupted": kb, "via": via, "readerat_conventions": 2, "deb_bases_pairs": "deb-stored: name x name and name x left-aligned size; deb-pre: name x name",
 			"name_values": colValues("name", 0, true), "mode_values": colValues("mode", 0, true), "uid_values": colValues("uid", 0, true)},
 			len(all), func(shard int, st *mc.Stats) bool {
 				lim := limiter{}
 				complete := true
 				supersets(all, shard, kb, func(cs []corr) bool {
-					if b.deb && !debWideSet(cs0, cs) {
+					if b.deb && !debWideSet(cs0, b.name == "deb-pre", cs) {
 						return true
 					}
 					bs := gen.ArmBuild(apply(b.ms, cs))
